@@ -396,6 +396,372 @@ def cvDecodeOutputs {α : Type} (h : CHelper) (zero : α) (bufs : List (List (Ar
          pure (pi.2, v)
      scatterA zero size size ws.flatten
 
+/-! ### BOLT slot packing: `bolt_cp.rs`, `bolt_cc_cr.rs`, `bolt_cc_dc.rs`
+
+  Everything lives on SLOT VECTORS (what `BatchEncoder::encode_new` is given / `decode_new` returns): `N` slots in two rows of
+  `N/2`.  `rotate_rows(v, s)` rotates both rows left by `s` (slot `i` of a row receives slot `i + s` of that row; a negative step
+  `-s` is the step `N/2 − s`), `rotate_columns` exchanges the rows (the Galois action on slots: C11 `slotExp_rotate` /
+  `slotExp_swap`, C04R `batchDecode_rotate_rows` / `_swap_rows`).  Slot-wise `add` / `mul` are parameters (the driver passes
+  arithmetic modulo t, the theorems the operations of a commutative ring).  A polynomial set `Plain2d` / `Cipher2d` is a list of
+  lists of slot vectors. -/
+
+def rotRows {α : Type} (zero : α) (N s : Nat) (v : Array α) : Array α :=
+  Array.ofFn (n := N) fun i => v.getD (i.val / (N / 2) * (N / 2) + (i.val % (N / 2) + s) % (N / 2)) zero
+
+def swapRows {α : Type} (zero : α) (N : Nat) (v : Array α) : Array α :=
+  Array.ofFn (n := N) fun i => v.getD ((i.val + N / 2) % N) zero
+
+def slotZip {α : Type} (f : α → α → α) (zero : α) (N : Nat) (a b : Array α) : Array α :=
+  Array.ofFn (n := N) fun i => f (a.getD i.val zero) (b.getD i.val zero)
+
+/-- `multiply_plain` by the 0/1 mask of the slots `[lo, hi)` -/
+def slotMask {α : Type} (zero : α) (N lo hi : Nat) (a : Array α) : Array α :=
+  Array.ofFn (n := N) fun i => if lo ≤ i.val ∧ i.val < hi then a.getD i.val zero else zero
+
+/-- `set_or_add` on an optional accumulator -/
+def accAdd {α : Type} (add : α → α → α) (zero : α) (N : Nat) (acc : Option (Array α)) (v : Array α) : Option (Array α) :=
+  match acc with
+  | none => some v
+  | some a => some (slotZip add zero N a v)
+
+def getSlots {α : Type} (l : List (Array α)) (i : Nat) : R (Array α) :=
+  match l[i]? with
+  | some v => .ok v
+  | none => .error .oob
+
+def getRow {α : Type} (l : List (List (Array α))) (i : Nat) : R (List (Array α)) :=
+  match l[i]? with
+  | some v => .ok v
+  | none => .error .oob
+
+def unwrapAcc {α : Type} (o : Option (Array α)) : R (Array α) :=
+  match o with
+  | some v => .ok v
+  | none => .error .other       -- `unwrap()` on `None`
+
+/-- column `k` moved by `rot` columns in the (row of `half` columns) × (2 rows) arrangement -/
+def boltShift (half k rot : Nat) : Nat := (rot + k) % half + (rot / half + k / half) % 2 * half
+
+/-! #### `MatmulBoltCp` (ciphertext × plaintext, LHS column-major) -/
+
+structure BoltCp where
+  N : Nat
+  mAll : Nat     -- m
+  m : Nat        -- regular.m = min(m, N/2)
+  r : Nat
+  n : Nat
+  gap : Nat      -- column_gap
+  s : Nat        -- column_slot_count
+  irc : Nat      -- input_rotate_count  (baby steps)
+  orc : Nat      -- output_rotate_count (giant steps)
+  deriving Repr, Inhabited
+
+/-- the baby-step / giant-step split search of `MatmulBoltCpSmall::new` -/
+def boltCpSplit (s ic oc : Nat) : Nat :=
+  let rec go : Nat → Nat → Nat → Nat → Nat
+    | 0, _, bi, _ => bi
+    | f+1, irc, bi, best =>
+      if irc < s then
+        let c := (irc - 1) * ic + (s / irc - 1) * oc
+        if c < best then go f (2 * irc) irc c else go f (2 * irc) bi best
+      else bi
+  go 64 1 1 usizeMax
+
+/-- `MatmulBoltCp::new` (degenerate shapes — a zero dimension, fewer than two columns per polynomial — divide by zero in the code
+    and are not modelled) -/
+def BoltCp.new (m r n N : Nat) : R BoltCp :=
+  let mr := min m (N / 2)
+  let gap := ceilTwoPower mr
+  if mr = 0 ∨ r = 0 ∨ n = 0 ∨ N / gap < 2 then .error .other else
+  let s := N / gap
+  let irc := boltCpSplit s (ceilDiv r s) (ceilDiv n s)
+  if irc = 0 then .error .other else
+  .ok ⟨N, m, mr, r, n, gap, s, irc, s / irc⟩
+
+/-- `MatmulBoltCpSmall::encode_inputs` / `encode_outputs` on a row slice of `len` entries of a matrix with `width` columns:
+    polynomial `i` holds columns `[i·s, min(width, i·s + s))`, column `c` at slots `(c mod s)·gap + j`, row `j` -/
+def boltColMajor {α : Type} (N gap s m width : Nat) (zero : α) (a : Nat → α) (len i : Nat) : R (Array α) :=
+  let lo := i * s
+  let hi := min width (lo + s)
+  scatterA zero N N (((pairs (hi - lo) m).filter fun cj => cj.2 * width + (lo + cj.1) < len).map fun cj =>
+    ((lo + cj.1) % s * gap + cj.2, a (cj.2 * width + (lo + cj.1))))
+
+/-- row parts of the general helper: `[part][polynomial]` -/
+def boltRowParts {α : Type} (N gap s m mAll width : Nat) (zero : α) (x : Nat → α) : R (List (List (Array α))) :=
+  (List.range (ceilDiv mAll m)).mapM fun p =>
+    let lower := p * m
+    let upper := min (lower + m) mAll
+    (List.range (ceilDiv width s)).mapM fun i =>
+      boltColMajor N gap s m width zero (fun id => x (lower * width + id)) ((upper - lower) * width) i
+
+def boltCpEncodeInputs {α : Type} (h : BoltCp) (zero : α) (x : Nat → α) (xlen : Nat) : R (List (List (Array α))) :=
+  if xlen ≠ h.mAll * h.r then .error .other else boltRowParts h.N h.gap h.s h.m h.mAll h.r zero x
+
+def boltCpEncodeOutputs {α : Type} (h : BoltCp) (zero : α) (y : Nat → α) (ylen : Nat) : R (List (List (Array α))) :=
+  if ylen ≠ h.mAll * h.n then .error .other else boltRowParts h.N h.gap h.s h.m h.mAll h.n zero y
+
+/-- one weight polynomial: rotation class (`ir`, `or`), output polynomial `i`, input polynomial `j` -/
+def boltCpEncW {α : Type} (h : BoltCp) (zero : α) (b : Nat → α) (ir or i j : Nat) : R (Array α) :=
+  let half := h.s / 2
+  let rot := or * h.irc + ir
+  let corr := or * h.irc % h.s
+  scatterA zero h.N h.N (((pairs h.s h.gap).filter fun kt =>
+      j * h.s + boltShift half kt.1 rot < h.r ∧ i * h.s + kt.1 < h.n).map fun kt =>
+    (boltShift half kt.1 corr * h.gap + kt.2, b ((j * h.s + boltShift half kt.1 rot) * h.n + (i * h.s + kt.1))))
+
+/-- `encode_weights`: `[ir·orc + or][i·input_count + j]` -/
+def boltCpEncodeWeights {α : Type} (h : BoltCp) (zero : α) (w : Nat → α) (wlen : Nat) : R (List (List (Array α))) :=
+  if wlen ≠ h.r * h.n then .error .other else
+  (pairs h.irc h.orc).mapM fun io => (pairs (ceilDiv h.n h.s) (ceilDiv h.r h.s)).mapM fun ij =>
+    boltCpEncW h zero w io.1 io.2 ij.1 ij.2
+
+/-- the input polynomial after the rotations of baby step `ir` (`rotate_rows` by one column per step; at `ir = s/2` the original is
+    reloaded with its rows exchanged) -/
+def boltCpRotIn {α : Type} (h : BoltCp) (zero : α) (a : Array α) : Nat → Array α
+  | 0 => a
+  | ir+1 => if ir + 1 = h.s / 2 then swapRows zero h.N a else rotRows zero h.N h.gap (boltCpRotIn h zero a ir)
+
+/-- `MatmulBoltCpSmall::multiply` on slot vectors, for one part -/
+def boltCpMulPart {α : Type} (h : BoltCp) (add mul : α → α → α) (zero : α) (a : List (Array α)) (B : List (List (Array α))) :
+    R (List (Array α)) :=
+  let ic := ceilDiv h.r h.s
+  let oc := ceilDiv h.n h.s
+  if a.length ≠ ic then .error .other else
+  (List.range oc).mapM fun i => do
+    -- outputs[or][i] = Σ_ir Σ_j rot_ir(a_j) ⊙ B[ir·orc + or][i·ic + j]
+    let outs ← (List.range h.orc).mapM fun or =>
+      (pairs h.irc ic).foldlM (fun (acc : Option (Array α)) irj => do
+        let aj ← getSlots a irj.2
+        let row ← getRow B (irj.1 * h.orc + or)
+        let b ← getSlots row (i * ic + irj.2)
+        pure (accAdd add zero h.N acc (slotZip mul zero h.N (boltCpRotIn h zero aj irj.1) b))) none
+    -- giant steps, from the last class down: rotate the running sum by `irc` columns, add the class; the classes that crossed the
+    -- row boundary are set aside with their rows exchanged
+    let st ← (List.range h.orc).reverse.foldlM (fun (st : Option (Array α) × Option (Array α)) or => do
+        let sum := match st.1 with
+          | some v => if h.irc * h.gap < h.N / 2 then some (rotRows zero h.N (h.irc * h.gap) v) else some v
+          | none => none
+        let part := (outs.getD or none)
+        let sum := match part with
+          | some p => accAdd add zero h.N sum p
+          | none => sum
+        if or = h.orc / 2 then
+          match sum with
+          | some v => pure (none, some (swapRows zero h.N v))
+          | none => pure (sum, st.2)
+        else pure (sum, st.2)) ((none : Option (Array α)), (none : Option (Array α)))
+    let fin := match st.2 with
+      | some hv => accAdd add zero h.N st.1 hv
+      | none => st.1
+    unwrapAcc fin
+
+def boltCpMultiply {α : Type} (h : BoltCp) (add mul : α → α → α) (zero : α) (A B : List (List (Array α))) :
+    R (List (List (Array α))) :=
+  if A.length ≠ ceilDiv h.mAll h.m then .error .other else A.mapM fun a => boltCpMulPart h add mul zero a B
+
+/-- `decode_outputs` of the column-major layout: entry (row `i` of the part, column `j`) at polynomial `j / s`, slot `(j mod s)·gap + i` -/
+def boltColMajorDecode {α : Type} (gap s m mAll width : Nat) (zero : α) (Y : List (List (Array α))) : R (Array α) :=
+  do let ws ← (List.range Y.length).mapM fun p => do
+       let part ← getRow Y p
+       let lower := p * m
+       let upper := min (lower + m) mAll
+       (pairs (upper - lower) width).mapM fun ij => do
+         let poly ← getSlots part (ij.2 / s)
+         let v ← readAt poly (ij.2 % s * gap + ij.1)
+         pure ((lower + ij.1) * width + ij.2, v)
+     scatterA zero (mAll * width) (mAll * width) ws.flatten
+
+def boltCpDecodeOutputs {α : Type} (h : BoltCp) (zero : α) (Y : List (List (Array α))) : R (Array α) :=
+  if Y.any (fun p => p.length ≠ ceilDiv h.n h.s) then .error .other else boltColMajorDecode h.gap h.s h.m h.mAll h.n zero Y
+
+/-! #### `MatmulBoltCcCr` (ciphertext × ciphertext, LHS column-major, RHS row-major; outputs by diagonals) -/
+
+structure BoltCc where
+  N : Nat
+  mAll : Nat
+  r : Nat
+  nAll : Nat
+  m : Nat        -- regular.m
+  gap : Nat
+  gsc : Nat      -- gap_slot_count
+  deriving Repr, Inhabited
+
+/-- `MatmulBoltCcCr::new`: the block side is `min(max(m, n), N/2)` -/
+def BoltCc.newCr (m r n N : Nat) : R BoltCc :=
+  let mr := min (max m n) (N / 2)
+  let gap := ceilTwoPower mr
+  if mr = 0 ∨ r = 0 ∨ N / 2 = 0 then .error .other else
+  .ok ⟨N, m, r, n, mr, gap, ceilDiv N gap⟩
+
+/-- `MatmulBoltCcDc::new`: the block side is `min(max(m, r), N/2)` -/
+def BoltCc.newDc (m r n N : Nat) : R BoltCc :=
+  let mr := min (max m r) (N / 2)
+  let gap := ceilTwoPower mr
+  if mr = 0 ∨ n = 0 ∨ N / 2 = 0 then .error .other else
+  .ok ⟨N, m, r, n, mr, gap, ceilDiv N gap⟩
+
+def boltCrEncodeInputs {α : Type} (h : BoltCc) (zero : α) (x : Nat → α) (xlen : Nat) : R (List (List (Array α))) :=
+  if xlen ≠ h.mAll * h.r then .error .other else boltRowParts h.N h.gap h.gsc h.m h.mAll h.r zero x
+
+/-- `MatmulBoltCcCrSmall::encode_weights` for the column strip `[cs, ce)`: polynomial `i` holds rows `[i·gsc, …)`, row `ρ` at slots
+    `(ρ mod gsc)·gap + j`, column `cs + j` -/
+def boltCrEncW {α : Type} (h : BoltCc) (zero : α) (b : Nat → α) (blen cs ce i : Nat) : R (Array α) :=
+  let lo := i * h.gsc
+  let hi := min h.r (lo + h.gsc)
+  scatterA zero h.N h.N (((pairs (hi - lo) (min h.m (ce - cs))).filter fun rj =>
+      (lo + rj.1) * h.nAll + rj.2 + cs < blen).map fun rj =>
+    ((lo + rj.1) % h.gsc * h.gap + rj.2, b ((lo + rj.1) * h.nAll + rj.2 + cs)))
+
+def boltCrEncodeWeights {α : Type} (h : BoltCc) (zero : α) (w : Nat → α) (wlen : Nat) : R (List (List (Array α))) :=
+  if wlen ≠ h.r * h.nAll then .error .other else
+  (List.range (ceilDiv h.nAll h.m)).mapM fun p =>
+    (List.range (ceilDiv h.r h.gsc)).mapM fun i => boltCrEncW h zero w wlen (p * h.m) (min (p * h.m + h.m) h.nAll) i
+
+/-- `sum_inplace`: fold all columns onto every column (log-many rotations, the last one across the rows) -/
+def boltSumAll {α : Type} (add : α → α → α) (zero : α) (N gap : Nat) (a : Array α) : Array α :=
+  let rec go : Nat → Nat → Array α → Array α
+    | 0, _, a => a
+    | f+1, rc, a =>
+      if rc = N then a else
+      let t := if rc < N / 2 then rotRows zero N rc a else swapRows zero N a
+      go f (2 * rc) (slotZip add zero N a t)
+  go 64 gap a
+
+/-- `MatmulBoltCcCrSmall::multiply`: diagonal `shift` of the product (entries `(i, (i + shift) mod m)`) is collected at polynomial
+    `shift / gsc`, slots `(shift mod gsc)·gap + i`; the wrapped part of the diagonal comes from the rotation by `shift − m` -/
+def boltCrMulSmall {α : Type} (h : BoltCc) (add mul : α → α → α) (zero : α) (a b : List (Array α)) : R (List (Array α)) :=
+  if a.length ≠ b.length then .error .other else
+  let diag (rot lo hi : Nat) (acc : Option (Array α)) : R (Option (Array α)) := do
+    let ps ← (List.range a.length).foldlM (fun (acc : Option (Array α)) i => do
+      let ai ← getSlots a i
+      let bi ← getSlots b i
+      pure (accAdd add zero h.N acc (slotZip mul zero h.N (rotRows zero h.N rot bi) ai))) none
+    let ps ← unwrapAcc ps
+    pure (accAdd add zero h.N acc (slotMask zero h.N lo hi (boltSumAll add zero h.N h.gap ps)))
+  (List.range (ceilDiv h.m h.gsc)).mapM fun o => do
+    let acc ← ((List.range h.m).filter fun sh => sh / h.gsc = o).foldlM (fun acc sh =>
+      diag (sh % (h.N / 2)) (sh % h.gsc * h.gap) (sh % h.gsc * h.gap + h.m - sh) acc) none
+    let acc ← (((List.range h.m).reverse.filter fun sh => sh ≠ 0 ∧ sh / h.gsc = o)).foldlM (fun acc sh =>
+      diag ((h.N / 2 - (h.m - sh) % (h.N / 2)) % (h.N / 2)) (sh % h.gsc * h.gap + h.m - sh) (sh % h.gsc * h.gap + h.m) acc) acc
+    unwrapAcc acc
+
+/-- `MatmulBoltCcCr::multiply`: `[i·wcount + j]` -/
+def boltCrMultiply {α : Type} (h : BoltCc) (add mul : α → α → α) (zero : α) (A B : List (List (Array α))) :
+    R (List (List (Array α))) :=
+  if A.length ≠ ceilDiv h.mAll h.m ∨ B.length ≠ ceilDiv h.nAll h.m then .error .other else
+  (pairs A.length B.length).mapM fun ij => do
+    let a ← getRow A ij.1
+    let b ← getRow B ij.2
+    boltCrMulSmall h add mul zero a b
+
+/-- `decode_outputs` (cc_cr): block `(i, j)` = polynomial set `i·wcount + j`; entry `(u, (u + shift) mod m)` of the block at polynomial
+    `shift / gsc`, slot `(shift mod gsc)·gap + u` -/
+def boltCrDecodeOutputs {α : Type} (h : BoltCc) (zero : α) (Y : List (List (Array α))) : R (Array α) :=
+  let ic := ceilDiv h.mAll h.m
+  let wc := ceilDiv h.nAll h.m
+  if Y.length ≠ ic * wc then .error .other else
+  do let ws ← (pairs ic wc).mapM fun ij => do
+       let part ← getRow Y (ij.1 * wc + ij.2)
+       let si := ij.1 * h.m
+       let sj := ij.2 * h.m
+       -- the small decoder fills the whole m × m block; the general one copies the part inside the matrix
+       let blk ← (pairs h.m h.m).mapM fun su => do      -- (shift, u)
+         let poly ← getSlots part (su.1 / h.gsc)
+         let v ← readAt poly (su.1 % h.gsc * h.gap + su.2)
+         pure (su.2, (su.2 + su.1) % h.m, v)
+       pure ((blk.filter fun e => si + e.1 < h.mAll ∧ sj + e.2.1 < h.nAll).map fun e => ((si + e.1) * h.nAll + (sj + e.2.1), e.2.2))
+     scatterA zero (h.mAll * h.nAll) (h.mAll * h.nAll) ws.flatten
+
+def boltCrEncodeOutputs {α : Type} (h : BoltCc) (zero : α) (y : Nat → α) (ylen : Nat) : R (List (List (Array α))) :=
+  if ylen ≠ h.mAll * h.nAll then .error .oob else
+  (pairs (ceilDiv h.mAll h.m) (ceilDiv h.nAll h.m)).mapM fun ij =>
+    let si := ij.1 * h.m
+    let sj := ij.2 * h.m
+    (List.range (ceilDiv h.m h.gsc)).mapM fun o =>
+      scatterA zero h.N h.N ((((List.range h.m).filter fun sh => sh / h.gsc = o).flatMap fun sh =>
+        (List.range h.m).map fun u =>
+          (sh % h.gsc * h.gap + u,
+           if si + u < h.mAll ∧ sj + (u + sh) % h.m < h.nAll then y ((si + u) * h.nAll + (sj + (u + sh) % h.m)) else zero)))
+
+/-! #### `MatmulBoltCcDc` (ciphertext × ciphertext, LHS by diagonals, RHS column-major) -/
+
+/-- `MatmulBoltCcDcSmall::encode_inputs` for the block starting at `(sy, sx)`: polynomial `i`, slot `j·gap + k` holds
+    `a[sy + k][sx + (i·gsc + k + j) mod m]` -/
+def boltDcEncIn {α : Type} (h : BoltCc) (zero : α) (a : Nat → α) (sy sx i : Nat) : R (Array α) :=
+  scatterA zero h.N h.N (((pairs h.gsc h.gap).filter fun jk =>
+      sy + jk.2 < h.mAll ∧ sx + (i * h.gsc + jk.2 + jk.1) % h.m < h.r).map fun jk =>
+    (jk.1 * h.gap + jk.2, a ((sy + jk.2) * h.r + (sx + (i * h.gsc + jk.2 + jk.1) % h.m))))
+
+/-- `MatmulBoltCcDc::encode_inputs`: blocks in ROW-MAJOR grid order `[i·wcount + j]` -/
+def boltDcEncodeInputs {α : Type} (h : BoltCc) (zero : α) (x : Nat → α) (xlen : Nat) : R (List (List (Array α))) :=
+  if xlen ≠ h.mAll * h.r then .error .other else
+  (pairs (ceilDiv h.mAll h.m) (ceilDiv h.r h.m)).mapM fun ij =>
+    (List.range (ceilDiv h.m h.gsc)).mapM fun i => boltDcEncIn h zero x (ij.1 * h.m) (ij.2 * h.m) i
+
+/-- `MatmulBoltCcDcSmall::encode_weights` for the row strip starting at `sy` -/
+def boltDcEncW {α : Type} (h : BoltCc) (zero : α) (b : Nat → α) (sy i : Nat) : R (Array α) :=
+  let lo := i * h.gsc
+  let hi := min h.nAll (lo + h.gsc)
+  scatterA zero h.N h.N (((pairs (hi - lo) h.m).filter fun ck => sy + ck.2 < h.r ∧ lo + ck.1 < h.nAll).map fun ck =>
+    (ck.1 * h.gap + ck.2, b ((sy + ck.2) * h.nAll + (lo + ck.1))))
+
+def boltDcEncodeWeights {α : Type} (h : BoltCc) (zero : α) (w : Nat → α) (wlen : Nat) : R (List (List (Array α))) :=
+  if wlen ≠ h.r * h.nAll then .error .other else
+  (List.range (ceilDiv h.r h.m)).mapM fun p =>
+    (List.range (ceilDiv h.nAll h.gsc)).mapM fun i => boltDcEncW h zero w (p * h.m) i
+
+/-- `spread_inputs`: keep the slots `[lo, hi)` (inside one column) and copy that column onto every column -/
+def boltSpread {α : Type} (add : α → α → α) (zero : α) (N gap lo hi : Nat) (a : Array α) : R (Array α) :=
+  if hi = 0 ∨ lo / gap ≠ (hi - 1) / gap then .error .other else      -- `assert_eq!(low / gap, (high - 1) / gap)`
+  let rec go : Nat → Nat → Nat → Array α → Array α
+    | 0, _, _, a => a
+    | f+1, rc, sid, a =>
+      if rc = N then a else
+      let t := if rc < N / 2 then (if sid % 2 = 0 then rotRows zero N (N / 2 - rc) a else rotRows zero N rc a)
+               else swapRows zero N a
+      go f (2 * rc) (sid / 2) (slotZip add zero N a t)
+  .ok (go 64 gap (lo / gap) (slotMask zero N lo hi a))
+
+/-- `MatmulBoltCcDcSmall::multiply` (before relinearisation, which does not change the slots) -/
+def boltDcMulSmall {α : Type} (h : BoltCc) (add mul : α → α → α) (zero : α) (a b : List (Array α)) : R (List (Array α)) :=
+  if a.length ≠ ceilDiv h.m h.gsc ∨ b.length ≠ ceilDiv h.nAll h.gsc then .error .other else
+  (List.range b.length).mapM fun o => do
+    let bo ← getSlots b o
+    let step (rot lo hi sh : Nat) (acc : Option (Array α)) : R (Option (Array α)) := do
+      let ai ← getSlots a (sh / h.gsc)
+      let ma ← boltSpread add zero h.N h.gap lo hi ai
+      pure (accAdd add zero h.N acc (slotZip mul zero h.N (rotRows zero h.N rot bo) ma))
+    let acc ← (List.range h.m).foldlM (fun acc sh =>
+      step (sh % (h.N / 2)) (sh % h.gsc * h.gap) (sh % h.gsc * h.gap + (h.m - sh)) sh acc) none
+    let acc ← ((List.range h.m).reverse.filter fun sh => sh ≠ 0).foldlM (fun acc sh =>
+      step ((h.N / 2 - (h.m - sh) % (h.N / 2)) % (h.N / 2)) (sh % h.gsc * h.gap + (h.m - sh)) (sh % h.gsc * h.gap + (h.m - sh) + sh) sh acc) acc
+    unwrapAcc acc
+
+/-- `MatmulBoltCcDc::multiply`: output part `i` = Σ_j small(A[i·bcount + j], B[j]) -/
+def boltDcMultiply {α : Type} (h : BoltCc) (add mul : α → α → α) (zero : α) (A B : List (List (Array α))) :
+    R (List (List (Array α))) :=
+  let bc := B.length
+  if A.length ≠ ceilDiv h.mAll h.m * ceilDiv h.r h.m ∨ bc ≠ ceilDiv h.r h.m then .error .other else
+  (List.range (ceilDiv h.mAll h.m)).mapM fun i => do
+    let parts ← (List.range bc).mapM fun j => do
+      let a ← getRow A (i * bc + j)
+      let b ← getRow B j
+      boltDcMulSmall h add mul zero a b
+    match parts with
+    | [] => .error .other
+    | p0 :: rest => pure (rest.foldl (fun acc p => (acc.zip p).map fun ap => slotZip add zero h.N ap.1 ap.2) p0)
+
+def boltDcDecodeOutputs {α : Type} (h : BoltCc) (zero : α) (Y : List (List (Array α))) : R (Array α) :=
+  if Y.length ≠ ceilDiv h.mAll h.m ∨ Y.any (fun p => p.length ≠ ceilDiv h.nAll h.gsc) then .error .other else
+  boltColMajorDecode h.gap h.gsc h.m h.mAll h.nAll zero Y
+
+def boltDcEncodeOutputs {α : Type} (h : BoltCc) (zero : α) (y : Nat → α) (ylen : Nat) : R (List (List (Array α))) :=
+  if ylen ≠ h.mAll * h.nAll then .error .oob else
+  (List.range (ceilDiv h.mAll h.m)).mapM fun p =>
+    (List.range (ceilDiv h.nAll h.gsc)).mapM fun o =>
+      scatterA zero h.N h.N ((pairs (min h.nAll (o * h.gsc + h.gsc) - o * h.gsc) h.m).map fun ci =>
+        (ci.1 * h.gap + ci.2, if p * h.m + ci.2 < h.mAll then y ((p * h.m + ci.2) * h.nAll + (o * h.gsc + ci.1)) else zero))
+
 /-! ### RNS plaintext wrapper -/
 
 /-- `RNSBase::decompose_array` on `count` values of `size` words each: output layout `[component][value]` -/
